@@ -25,6 +25,7 @@ func c10(c *eng.Ctx, r *eng.Report) {
 		"R10.5 fresh memory is zero: Memory.store is assigned only in Resize and only as append(m.store, make([]byte, n)...), NewMemory returns a fresh object and Run takes one per frame. " +
 		"R10.6 every memory-touching standard opcode reads and writes exactly the regions its definition names (offset/length operands as entry stack slots, compared with a reference table from the Yellow Paper and the EIPs). " +
 		"R10.7 the return-data buffer is a private copy (Run copies the operation's result, or every handler of a `returns` row hands back a copy). " +
+		"R10.10 the memory an opcode activates is exactly what it touches: where a row's memorySize function accounts for a region of constant length (MLOAD, MSTORE: 32; MSTORE8: 1) some access of the handler at that offset ends exactly at that length — a byte store sized like a word store activates a word too many at an unaligned top offset, and MSIZE and every later expansion charge differ; " +
 		"R10.9 a zero-length memory operand touches nothing whatever its offset: in calcMemSize64WithUint every overflow result (second result true) is produced only after the length was found non-zero — KECCAK256(2^256-1, 0), RETURN(2^255, 0), CALLDATACOPY(2^64, 0, 0) are no-ops, not gas-overflow failures; " +
 		"R10.8 memory is resized to the maximum touched offset before execution: for each standard memory opcode every region its handler touches lies inside a region its memorySize function accounts for (the C11 coverage rule applied to the rows of the reference table; MCOPY needs both source and destination) and the growth is charged; " +
 		"Not decided: the 256-bit arithmetic itself (holiman/uint256), KECCAK, the bytes copied by Memory.Set/Copy, the bit arithmetic of bitvec.set/set8."
@@ -39,6 +40,7 @@ func c10(c *eng.Ctx, r *eng.Report) {
 	c10ReturnData(c, r, rows)
 	c11MemoryAs(c, r, rows, "R10.8", memRef, 20)
 	c10ZeroLengthFirst(c, r)
+	c10MemSizeTight(c, r, rows)
 	c10Bitmap(c, r)
 	c10Memory(c, r)
 }
@@ -902,4 +904,51 @@ func c10ZeroLengthFirst(c *eng.Ctx, r *eng.Report) {
 		}
 	}
 	r.Check(bad == "" && n >= 1, rule, "memsize:zero-length-first", c.Pos(fn.Pos()), "every possibly-overflowing result is computed only for a non-zero length", "calcMemSize64WithUint can report overflow at "+bad+" before the length was found non-zero: a memory operand of length 0 with an offset of 2^64 or more — KECCAK256(2^256-1, 0), RETURN(2^255, 0) — now aborts the frame with ErrGasUintOverflow instead of touching nothing")
+}
+
+// c10MemSizeTight: see R10.10.
+func c10MemSizeTight(c *eng.Ctx, r *eng.Report, rows []rowFx) {
+	const rule = "R10.10"
+	r.Min(rule, 3)
+	for _, rf := range rows {
+		row, fx := rf.Row, rf.Fx
+		if row.MemSize == nil || row.Superseded || len(fx.Mem) == 0 {
+			continue
+		}
+		regs, probs := c.MemSizeRegions(row.MemSize)
+		if len(probs) > 0 {
+			continue // reported by R10.8
+		}
+		for _, rg := range regs {
+			if rg.LenSlot >= 0 {
+				continue
+			}
+			tight, widest := false, int64(-1)
+			for _, m := range fx.Mem {
+				if m.Off.Unknown != "" || m.Size.Unknown != "" || !m.Size.Const {
+					continue
+				}
+				same := false
+				for _, sl := range rg.OffSlots {
+					if sl == m.Off.Slot {
+						same = true
+					}
+				}
+				if !same {
+					continue
+				}
+				end := m.Off.Add + m.Size.Add
+				if end > widest {
+					widest = end
+				}
+				if end == rg.LenConst {
+					tight = true
+				}
+			}
+			if widest < 0 {
+				continue // no constant-size access at that offset: nothing to compare
+			}
+			r.Check(tight, rule, "memsize-tight:"+row.Name+"@"+row.Where, c.Pos(row.Pos), fmt.Sprintf("%s accounts for %d byte(s), the handler touches exactly that", eng.FuncName(row.MemSize), rg.LenConst), fmt.Sprintf("%s is sized by %s for %d bytes at its offset but its handler %s touches %d: the opcode activates memory it does not touch — for an offset in the last active word (MSTORE8 at offset 1 of empty memory) MSIZE reports one word too many and every later expansion is charged from the wrong base", row.Name, eng.FuncName(row.MemSize), rg.LenConst, eng.FuncName(row.Exec), widest))
+		}
+	}
 }
